@@ -1,5 +1,6 @@
 import J5V.Print.Layout
 import J5V.Print.OrderProofs
+import J5V.Print.OptionTextProofs
 /-!
 # Lemmas about `J5V.Print.Layout` (core only): printing is a fixed point
 
@@ -74,14 +75,15 @@ end
 def FileD.unloc (f : FileD) : Prop :=
   f.loc.isNone ∧ (∀ o ∈ f.opts, o.hasLoc = false) ∧ (∀ e ∈ f.exts, e.2.unloc) ∧ unlocList f.items
 
-/-- the same option with a source location under which the printer decides as without one: an
-option that can be written on one line was on one line -/
-def optOk (o o' : OptD) : Prop :=
-  o'.extFull = o.extFull ∧ o'.isExt = o.isExt ∧ o'.rel = o.rel ∧ o'.tree = o.tree ∧
-  (∀ v ∈ statements o.simp.2, inlineString true v ≠ none → o'.single = true)
+/-- the same option (name, values of the statements up to the keys the text does not carry) with a
+source location under which the printer decides as without one: a statement that can be written on
+one line was on one line -/
+def optOk (o o' : SOpt) : Prop :=
+  o'.name = o.name ∧ o'.stmts.map eraseKeys = o.stmts.map eraseKeys ∧
+  (∀ v ∈ o.stmts, inlineString true v ≠ none → o'.single = true)
 
 /-- the same options (in the same wire order) whose locations keep the order of the statements -/
-def optsOk (os os' : List OptD) : Prop :=
+def optsOk (os os' : List SOpt) : Prop :=
   os.length = os'.length ∧ (∀ p ∈ os.zip os', optOk p.1 p.2) ∧
   (∀ p ∈ os.zip os', ∀ q ∈ os.zip os', locLess p.2.loc q.2.loc = locLess p.1.loc q.1.loc)
 
@@ -119,7 +121,7 @@ end
 
 /-- the file `d'` is the arranged location-free file `t` with locations as in the printed text -/
 def relaidFile (t d' : FileD) : Prop :=
-  d'.genComment = t.genComment ∧ d'.pkg = t.pkg ∧ d'.imports = t.imports ∧ d'.loc.noComments ∧
+  d'.pkg = t.pkg ∧ d'.imports = sortStrings t.imports ∧ sortStrings d'.imports = d'.imports ∧ d'.loc.noComments ∧
   optsOk t.opts d'.opts ∧
   t.exts.length = d'.exts.length ∧ (∀ p ∈ t.exts.zip d'.exts, p.2.1 = p.1.1 ∧ fieldOk p.1.2 p.2.2) ∧
   relaidKids true false 0 0 0 t.items d'.items
@@ -263,33 +265,39 @@ theorem inlineString_of_none (s : Bool) (v : Opt) (h : inlineString true v = non
   | true => exact h
   | false => simp [inlineString]
 
-theorem OptD.single_unloc {o : OptD} (h : o.hasLoc = false) : o.single = true := by simp [OptD.single, h]
-theorem OptD.inl_unloc {o : OptD} (h : o.hasLoc = false) : o.inl = true := by simp [OptD.inl, h]
+theorem SOpt.single_unloc {o : SOpt} (h : o.hasLoc = false) : o.single = true := by simp [SOpt.single, h]
+theorem SOpt.inl_unloc {o : SOpt} (h : o.hasLoc = false) : o.inl = true := by simp [SOpt.inl, h]
 
-theorem optOk.simp_eq {o o' : OptD} (h : optOk o o') : o'.simp = o.simp := by
-  unfold OptD.simp; rw [h.1, h.2.2.2.1]
+theorem map_erase_factor {γ : Type} (G : Opt → γ) (hG : ∀ v, G (eraseKeys v) = G v) (l : List Opt) :
+    (l.map eraseKeys).map G = l.map G := by
+  rw [List.map_map]
+  exact List.map_congr_left (fun v _ => hG v)
 
-theorem optOk.name_eq {o o' : OptD} (h : optOk o o') : o'.name = o.name := by
-  unfold OptD.name; rw [h.simp_eq, h.2.1, h.2.2.1]
+/-- the statements of the located option are written like those of the original -/
+theorem optOk.stmts_eq {γ : Type} {o o' : SOpt} (h : optOk o o') (G G' : Opt → γ)
+    (hG : ∀ v, G (eraseKeys v) = G v) (hG' : ∀ v, G' (eraseKeys v) = G' v)
+    (hGG : ∀ v ∈ o.stmts, G' v = G v) : o'.stmts.map G' = o.stmts.map G := by
+  rw [← map_erase_factor G' hG', h.2.1, map_erase_factor G' hG']
+  exact List.map_congr_left hGG
 
-theorem optOk.inline_eq {o o' : OptD} (h : optOk o o') (v : Opt) (hv : v ∈ statements o.simp.2) :
+theorem optOk.inline_eq {o o' : SOpt} (h : optOk o o') (v : Opt) (hv : v ∈ o.stmts) :
     inlineString o'.single v = inlineString true v := by
   cases hn : inlineString true v with
   | none => exact inlineString_of_none _ v hn
-  | some s => rw [h.2.2.2.2 v hv (by simp [hn]), hn]
+  | some s => rw [h.2.2 v hv (by simp [hn]), hn]
 
-theorem optionCmds_ok (n : Nat) {o o' : OptD} (h : optOk o o') (hu : o.hasLoc = false) :
+theorem optionCmds_ok (n : Nat) {o o' : SOpt} (h : optOk o o') (hu : o.hasLoc = false) :
     optionCmds n o' = optionCmds n o := by
-  unfold optionCmds optionStmt
-  rw [h.name_eq, h.simp_eq, OptD.single_unloc hu]
+  unfold optionCmds
+  rw [h.1, SOpt.single_unloc hu]
   congr 2
-  apply List.map_congr_left
+  apply h.stmts_eq _ _ (optionStmt1_erase n o.name true) (optionStmt1_erase n o.name o'.single)
   intro v hv
   unfold optionStmt1
   rw [h.inline_eq v hv]
 
 /-- the statement options of an element are written in the same order and the same way -/
-theorem sortOpts_map_ok {γ : Type} (F : OptD → γ) (os os' : List OptD) (h : optsOk os os')
+theorem sortOpts_map_ok {γ : Type} (F : SOpt → γ) (os os' : List SOpt) (h : optsOk os os')
     (hu : ∀ o ∈ os, o.hasLoc = false) (hF : ∀ o o', optOk o o' → o.hasLoc = false → F o' = F o) :
     (sortOpts os').map F = (sortOpts os).map F := by
   obtain ⟨hl, hok, hord⟩ := h
@@ -308,13 +316,21 @@ theorem sortOpts_map_ok {γ : Type} (F : OptD → γ) (os os' : List OptD) (h : 
 
 /-! ## fields -/
 
-/-- forget whether the option is in line with its parent -/
-def strip (p : POpt) : POpt := { p with inlineWithParent := true }
+/-- forget whether the option is in line with its parent, and the keys the text does not carry -/
+def strip (p : POpt) : POpt := { p with root := eraseKeys p.root, inlineWithParent := true }
 
 theorem fieldBody_strip (n : Nat) : ∀ ps : List POpt, fieldBody n (ps.map strip) = fieldBody n ps
   | [] => rfl
   | p :: r => by
+    obtain ⟨name, root, inl, flag⟩ := p
     simp only [List.map_cons, fieldBody, fieldBody_strip n r, strip, List.isEmpty_map]
+    cases inl with
+    | some s => rfl
+    | none =>
+      cases root with
+      | scalar k v => simp [eraseKeys]
+      | arr k ks => simp [eraseKeys]
+      | msg k ks => simp [eraseKeys, msgFields_erase]
 
 theorem fieldStyle_strip (n : Nat) (head number ic : String) (ps : List POpt)
     (h : ∀ p, ps = [p] → p.inl ≠ none → p.inlineWithParent = true) :
@@ -324,12 +340,15 @@ theorem fieldStyle_strip (n : Nat) (head number ic : String) (ps : List POpt)
   | [p] =>
     obtain ⟨name, root, inl, flag⟩ := p
     cases inl with
-    | none => cases flag <;> simp [fieldStyle, strip, fieldBody]
+    | none =>
+      have hb := fieldBody_strip n [⟨name, root, none, flag⟩]
+      simp only [List.map_cons, List.map_nil, strip] at hb
+      cases flag <;> simp [fieldStyle, strip, hb]
     | some s =>
       have := h _ rfl (by simp)
       simp only at this
       subst this
-      simp [strip]
+      simp [strip, fieldStyle]
   | p :: q :: r =>
     have hb := fieldBody_strip n (p :: q :: r)
     simp only [List.map_cons] at hb
@@ -343,35 +362,23 @@ theorem sortByName_strip (l : List POpt) : (sortByName l).map strip = sortByName
   rw [stableSort_map strip]
   rfl
 
-theorem strip_id_of_flag (l : List POpt) (h : ∀ p ∈ l, p.inlineWithParent = true) : l.map strip = l := by
-  induction l with
-  | nil => rfl
-  | cons p r ih =>
-    simp only [List.map_cons]
-    rw [ih (fun q hq => h q (by simp [hq]))]
-    have := h p (by simp)
-    obtain ⟨a, b, c, d⟩ := p
-    simp only at this
-    subst this
-    rfl
-
-theorem parsed_flag {o : OptD} (p : POpt) (hp : p ∈ o.parsed) : p.inlineWithParent = o.inl := by
-  unfold OptD.parsed at hp
+theorem parsed_flag {o : SOpt} (p : POpt) (hp : p ∈ o.parsed) : p.inlineWithParent = o.inl := by
+  unfold SOpt.parsed at hp
   simp only [List.mem_map] at hp
   obtain ⟨v, _, rfl⟩ := hp
   rfl
 
 /-- every option of `printFieldStyle` comes from one of the element's options or is `json_name` -/
-theorem popts_flag (f : FieldD) (b : Bool) (h : ∀ o ∈ f.opts, o.inl = b) (hb : b = true) :
+theorem popts_flag (f : FieldD) (h : ∀ o ∈ f.opts, o.inl = true) :
     ∀ p ∈ f.popts, p.inlineWithParent = true := by
   intro p hp
-  have hsorted : ∀ q ∈ sortByName (f.opts.map OptD.parsed).flatten, q.inlineWithParent = true := by
+  have hsorted : ∀ q ∈ sortByName (f.opts.map SOpt.parsed).flatten, q.inlineWithParent = true := by
     intro q hq
     unfold sortByName at hq
     rw [mem_stableSort] at hq
     simp only [List.mem_flatten, List.mem_map] at hq
     obtain ⟨l, ⟨o, ho, rfl⟩, hql⟩ := hq
-    rw [parsed_flag q hql, h o ho, hb]
+    rw [parsed_flag q hql, h o ho]
   unfold FieldD.popts at hp
   split at hp
   · split at hp
@@ -382,24 +389,30 @@ theorem popts_flag (f : FieldD) (b : Bool) (h : ∀ o ∈ f.opts, o.inl = b) (hb
     · exact hsorted p hp
   · exact hsorted p hp
 
-theorem parsed_strip_ok {o o' : OptD} (h : optOk o o') (hu : o.hasLoc = false) :
-    o'.parsed.map strip = o.parsed := by
-  unfold OptD.parsed
-  rw [h.simp_eq, h.name_eq, OptD.single_unloc hu, OptD.inl_unloc hu, List.map_map]
-  apply List.map_congr_left
-  intro v hv
-  simp only [Function.comp, strip]
-  rw [h.inline_eq v hv]
+theorem parsed_strip_ok {o o' : SOpt} (h : optOk o o') (hu : o.hasLoc = false) :
+    o'.parsed.map strip = o.parsed.map strip := by
+  unfold SOpt.parsed
+  rw [h.1, SOpt.single_unloc hu, SOpt.inl_unloc hu, List.map_map, List.map_map]
+  apply h.stmts_eq
+  · intro v; simp only [Function.comp, strip, inlineString_erase]
+    congr 1
+    cases v <;> simp [eraseKeys, eraseKids_idem, eraseElems_idem]
+  · intro v; simp only [Function.comp, strip, inlineString_erase]
+    congr 1
+    cases v <;> simp [eraseKeys, eraseKids_idem, eraseElems_idem]
+  · intro v hv
+    simp only [Function.comp, strip]
+    rw [h.inline_eq v hv]
 
 theorem flatten_map_strip (ls : List (List POpt)) : ls.flatten.map strip = (ls.map (List.map strip)).flatten := by
   induction ls with
   | nil => rfl
   | cons l r ih => simp [ih]
 
-theorem popts_strip_ok {f f' : FieldD} (h : fieldOk f f') (hu : f.unloc) : f'.popts.map strip = f.popts := by
+theorem popts_strip_ok {f f' : FieldD} (h : fieldOk f f') (hu : f.unloc) : f'.popts.map strip = f.popts.map strip := by
   obtain ⟨_, _, _, hname, _, hjson, _, hl, hok, _⟩ := h
-  have hparsed : (f'.opts.map OptD.parsed).flatten.map strip = (f.opts.map OptD.parsed).flatten := by
-    rw [flatten_map_strip, List.map_map]
+  have hparsed : (f'.opts.map SOpt.parsed).flatten.map strip = (f.opts.map SOpt.parsed).flatten.map strip := by
+    rw [flatten_map_strip, flatten_map_strip, List.map_map, List.map_map]
     congr 1
     apply map_eq_of_zip _ _ f.opts f'.opts hl
     intro p hp
@@ -407,12 +420,12 @@ theorem popts_strip_ok {f f' : FieldD} (h : fieldOk f f') (hu : f.unloc) : f'.po
   unfold FieldD.popts
   rw [hjson, hname]
   cases f.json with
-  | none => simp only []; rw [sortByName_strip, hparsed]
+  | none => simp only []; rw [sortByName_strip, sortByName_strip, hparsed]
   | some j =>
     simp only []
     split
-    · rw [List.map_append, sortByName_strip, hparsed]; rfl
-    · rw [sortByName_strip, hparsed]
+    · rw [List.map_append, List.map_append, sortByName_strip, sortByName_strip, hparsed]
+    · rw [sortByName_strip, sortByName_strip, hparsed]
 
 theorem fieldCmds_ok (n : Nat) {f f' : FieldD} (h : fieldOk f f') (hu : f.unloc) :
     fieldCmds n f' = fieldCmds n f := by
@@ -427,12 +440,25 @@ theorem fieldCmds_ok (n : Nat) {f f' : FieldD} (h : fieldOk f f') (hu : f.unloc)
   congr 2
   -- the options
   have hflag0 : ∀ p ∈ f.popts, p.inlineWithParent = true :=
-    popts_flag f true (fun o ho => OptD.inl_unloc (hu.2 o ho)) rfl
-  rw [← fieldStyle_strip n f.head (toString f.number) "" f'.popts, hstrip]
-  intro p' hp' hne
-  have hf : f.popts = [strip p'] := by rw [← hstrip, hp']; rfl
-  have hall := hinl (strip p') hf (by simpa [strip] using hne)
-  exact popts_flag f' true hall rfl p' (by rw [hp']; simp)
+    popts_flag f (fun o ho => SOpt.inl_unloc (hu.2 o ho))
+  rw [← fieldStyle_strip n f.head (toString f.number) "" f'.popts, hstrip,
+    fieldStyle_strip n f.head (toString f.number) "" f.popts]
+  · intro p hp _; exact hflag0 p (by rw [hp]; simp)
+  · intro p' hp' hne
+    have hlen : f.popts.length = 1 := by
+      have := congrArg List.length hstrip
+      simp only [List.length_map, hp', List.length_singleton] at this
+      exact this.symm
+    match hf : f.popts, hlen with
+    | [p], _ =>
+      have hinl' : p.inl ≠ none := by
+        rw [hp', hf] at hstrip
+        simp only [List.map_cons, List.map_nil, List.cons.injEq, and_true] at hstrip
+        have : p'.inl = p.inl := by
+          have := congrArg POpt.inl hstrip
+          simpa [strip] using this
+        rw [← this]; exact hne
+      exact popts_flag f' (hinl p hf hinl') p' (by rw [hp']; simp)
 
 /-! ## elements -/
 
@@ -464,7 +490,7 @@ theorem relaidKids_isEmpty (first pg : Bool) (ps le lt : Nat) :
   | _ :: _, [], h => by simp [relaidKids] at h
   | _ :: _, _ :: _, _ => rfl
 
-theorem optsOk_isEmpty {os os' : List OptD} (h : optsOk os os') : os'.isEmpty = os.isEmpty := by
+theorem optsOk_isEmpty {os os' : List SOpt} (h : optsOk os os') : os'.isEmpty = os.isEmpty := by
   have := h.1
   cases os <;> cases os' <;> simp_all
 
@@ -697,9 +723,9 @@ end
 /-- **Printing is a fixed point.** `t`: an arranged file without source information; `d'`: the same
 file with the locations (and without the comments) of its own printed text. The printer writes the
 same lines for both. -/
-theorem printFile_relaid (t d' : FileD) (hu : t.unloc) (hr : relaidFile t d') :
-    printFile d' = run (fileCmds t) false := by
-  obtain ⟨hgen, hpkg, himp, hnc, hopts, hel, hexts, hitems⟩ := hr
+theorem printFile_relaid (gen : String) (t d' : FileD) (hu : t.unloc) (hr : relaidFile t d') :
+    printFile gen d' = run (fileCmds gen t) false := by
+  obtain ⟨hpkg, himp, himps, hnc, hopts, hel, hexts, hitems⟩ := hr
   obtain ⟨huloc, huopts, huexts, huitems⟩ := hu
   have harr : d'.arranged = d' := by
     unfold FileD.arranged
@@ -716,8 +742,17 @@ theorem printFile_relaid (t d' : FileD) (hu : t.unloc) (hr : relaidFile t d') :
     obtain ⟨h1, h2⟩ := hexts p hp
     have hm : p.1 ∈ t.exts := (List.of_mem_zip hp).1
     rw [h1, fieldCmds_ok 1 h2 (huexts p.1 hm)]
+  have hempty : d'.imports.isEmpty = t.imports.isEmpty := by
+    rw [himp]
+    unfold sortStrings
+    cases t.imports with
+    | nil => rfl
+    | cons x xs =>
+      simp only [isort, List.isEmpty_cons]
+      generalize isort _ xs = l
+      cases l <;> simp [insertBy] <;> split <;> simp
   unfold fileCmds
-  rw [hgen, hpkg, himp, leadingCmds_noComments 0 hnc, leadingCmds_noComments 0 huloc.noComments, hextsEq,
+  rw [hempty, himps, hpkg, himp, leadingCmds_noComments 0 hnc, leadingCmds_noComments 0 huloc.noComments, hextsEq,
     sortOpts_map_ok (optionCmds 0) t.opts d'.opts hopts huopts (fun o o' hk hh => optionCmds_ok 0 hk hh)]
   exact Equiv.append (Equiv.refl _) hkids
 
@@ -759,8 +794,8 @@ theorem FileD.arranged_unloc (d : FileD) (h : d.unloc) : d.arranged.unloc := by
   rw [mem_goSort] at hx
   exact (unlocList_iff _).mp (arrangeList_unloc d.items h4) x hx
 
-theorem printFile_reprint (d d' : FileD) (hu : d.unloc) (hr : relaidFile d.arranged d') :
-    printFile d' = printFile d :=
-  printFile_relaid d.arranged d' (FileD.arranged_unloc d hu) hr
+theorem printFile_reprint (gen : String) (d d' : FileD) (hu : d.unloc) (hr : relaidFile d.arranged d') :
+    printFile gen d' = printFile gen d :=
+  printFile_relaid gen d.arranged d' (FileD.arranged_unloc d hu) hr
 
 end J5V.Print.Layout
